@@ -175,3 +175,12 @@ package store
 //@     assert[C19:response-written-as-given] n == 0 && arg1 == r
 //@     do n = n + 1
 //@   ensures[C19:response-written-once] n == 1
+
+// ---- who may act as the agent of a backend (C17): decided from the registration stored under that very id ----
+//@ func (*persistentStore).IsBackendUserAllowed props(C17,C07)
+//@   ghost gets int = 0
+//@   call datastore.Get
+//@     assert[C17:registration-read-under-the-named-backend-id] gets == 0 && keyKind(arg1) == "backend" && keyName(arg1) == backendID
+//@     do gets = gets + 1
+//@   ensures[C17:allowed-only-for-the-registered-account] r0 ==> r1 == nil && gets == 1 && b.BackendUser == backendUser
+//@   ensures[C17:registered-account-is-allowed] r1 == nil && !r0 ==> gets == 1
